@@ -5,10 +5,11 @@ import gen
 import msuite
 
 PID = 'C11'
-TAGS = ['cputreq', 'cputrej', 'csub', 'cend', 'got', 'caught']
+TAGS = ['cputreq', 'cputrej', 'csub', 'cend', 'cleave', 'cnext', 'got', 'caught']
 RULE = ('(a) families: 1-2 producers, 1-4 consumers (iteration with early break, single awaits, late subscription) on one '
         'channel inside an (until-)scope, puts/close on a coarse time grid, cancels after t time units and k postponements, '
-        'deadlines, volatile consumers; (b) random whole-API programs with a channel-heavy profile; non-trivial = at least 2 '
+        'deadlines, volatile consumers; consumers holding several subscriptions at once (an await or a second iteration of '
+        'the channel inside the body of an iteration); (b) random whole-API programs with a channel-heavy profile; non-trivial = at least 2 '
         'messages delivered')
 
 PROFILE = {'chans': 2, 'flags': 2, 'depth': 3, 'until': 0.5, 'volatile': 0.3,
@@ -54,12 +55,38 @@ def close_race(rng):
     return ['scenario', ['debug', 1], ['start', 0], ['flags', 1], ['locks', 0], ['chans', 1], ['roots'] + roots]
 
 
+def nested(rng):
+    """one activity holds several subscriptions of the same channel at once: inside the body of `async for` over the channel
+    it awaits the channel again (or iterates it again); every subscription still gets every message put during its lifetime"""
+    def inner():
+        k = rng.random()
+        if k < 0.5:
+            return [['try', ['body', ['cget', 0]], ['handler', ['pats', 'streamClosed'], ['body', ['log', 80]]]]]
+        if k < 0.8:
+            return [['citer', 0, rng.randint(1, 2)] + ([['sleep', rng.choice([0, F(1, 2)])]] if rng.random() < 0.5 else [])]
+        return [['sleep', rng.choice([0, F(1, 2)])], ['try', ['body', ['cget', 0]], ['handler', ['pats', 'streamClosed'], ['body', ['log', 81]]]]]
+    roots = []
+    for i in range(rng.randint(1, 3)):
+        roots.append(['prog', ['citer', 0, rng.randint(1, 4)] + inner(), ['log', 90 + i]])
+    for _ in range(rng.randint(1, 2)):
+        prog = [['sleep', rng.choice([F(1, 2), 1])]]
+        for _ in range(rng.randint(3, 7)):
+            prog.append(['cput', 0, 1])
+            if rng.random() < 0.4:
+                prog.append(['sleep', rng.choice([0, F(1, 2), 1])])
+        if rng.random() < 0.7:
+            prog.append(['cclose', 0])
+        roots.append(['prog'] + prog)
+    rng.shuffle(roots)
+    return ['scenario', ['debug', 1], ['start', 0], ['flags', 1], ['locks', 0], ['chans', 1], ['roots'] + roots]
+
+
 def nontrivial(impl):
     return sum(1 for e in impl['events'] if ':got:' in e) >= 2
 
 
 def run(tier, seed, drv):
-    return msuite.standard_run(PID, 'C11', TAGS, tier, seed, drv, [family, lambda r: gen.gen_scenario(r, PROFILE), close_race],
+    return msuite.standard_run(PID, 'C11', TAGS, tier, seed, drv, [family, lambda r: gen.gen_scenario(r, PROFILE), close_race, nested],
                                nontrivial=nontrivial, rule=RULE)
 
 
